@@ -63,6 +63,7 @@ type Case struct {
 	Lines [][]exact.Pt // line strings in 1/1000 units
 	Rot   bool         // both operands rotated by 30 degrees and scaled by 1.7 (a similarity: lengths scale by 1.7)
 	Pow   int          `json:",omitempty"` // both operands scaled exactly by 2^Pow (lengths scale by 2^Pow)
+	Far   bool         `json:",omitempty"` // both operands moved (after scaling) by (2^22, 3*2^21)
 	Slack float64      `json:",omitempty"` // absolute tolerance for lines whose coordinates are so large that one ulp of them exceeds the usual 1e-9
 }
 
@@ -200,7 +201,7 @@ func simpleLine(l []exact.Pt) bool {
 
 // insideLength is the reference: total length of the parts of the line inside
 // the even-odd region. ok=false when a piece is too short to classify safely.
-func insideLength(r exact.Region, fr exact.FRegion, line []exact.Pt) (float64, bool) {
+func insideLength(r exact.Region, fr exact.FRegion, line []exact.Pt, minPiece float64) (float64, bool) {
 	total := 0.0
 	for k := 0; k+1 < len(line); k++ {
 		p, q := line[k], line[k+1]
@@ -224,7 +225,11 @@ func insideLength(r exact.Region, fr exact.FRegion, line []exact.Pt) (float64, b
 		fp, fq := f(p), f(q)
 		segLen := math.Hypot(fq.X-fp.X, fq.Y-fp.Y)
 		for i := 0; i+1 < len(ts); i++ {
-			if ts[i+1]-ts[i] < 1e-7 {
+			tooShort := ts[i+1]-ts[i] < 1e-7
+			if minPiece > 0 {
+				tooShort = (ts[i+1]-ts[i])*segLen < minPiece
+			}
+			if tooShort {
 				if ts[i+1] != ts[i] {
 					return 0, false
 				}
@@ -324,7 +329,13 @@ func runCase(c Case) (string, string) {
 			atomic.AddInt64(&nSkipped, 1)
 			return "", ""
 		}
-		w, ok := insideLength(r, fr, l)
+		// (pieces shorter than 1e-7 of their segment are not classified; where the
+		// coordinates are large or far from the origin the limit is a length)
+		minPiece := 0.0
+		if c.Slack > 0 {
+			minPiece = 0.01
+		}
+		w, ok := insideLength(r, fr, l, minPiece)
 		if !ok {
 			atomic.AddInt64(&nSkipped, 1)
 			return "", ""
@@ -381,6 +392,40 @@ func runCase(c Case) (string, string) {
 		for i, ring := range fr {
 			for _, v := range ring {
 				ffr[i] = append(ffr[i], exact.FPt{X: v.X * k, Y: v.Y * k})
+			}
+		}
+		fr = ffr
+	}
+	if c.Far {
+		tr := func(q geom.Point) geom.Point { return geom.Point{X: q.X + 4194304, Y: q.Y + 6291456} }
+		switch t := pg.(type) {
+		case *geom.Bounds:
+			pg = &geom.Bounds{Min: tr(t.Min), Max: tr(t.Max)}
+		default:
+			var mp geom.MultiPolygon
+			for _, p := range pg.Polygons() {
+				var q geom.Polygon
+				for _, r := range p {
+					var o geom.Path
+					for _, v := range r {
+						o = append(o, tr(v))
+					}
+					q = append(q, o)
+				}
+				mp = append(mp, q)
+			}
+			if _, ok := pg.(geom.Polygon); ok {
+				pg = mp[0]
+			} else {
+				pg = mp
+			}
+		}
+		prev := pt
+		pt = func(p exact.Pt) geom.Point { return tr(prev(p)) }
+		ffr := make(exact.FRegion, len(fr))
+		for i, ring := range fr {
+			for _, v := range ring {
+				ffr[i] = append(ffr[i], exact.FPt{X: v.X + 4194304, Y: v.Y + 6291456})
 			}
 		}
 		fr = ffr
@@ -484,7 +529,7 @@ func main() {
 		return
 	}
 	rep = report.New("C14", tier, "model_checking")
-	rep.Rule = "E1: 16 polygonal shapes (a corridor of aspect ratio 3e9, boxes, triangles, L, C, pentagon, holes in both windings and closed spelling, multi-polygons, island in hole) as Polygon / MultiPolygon / *Bounds x every simple open polyline of 2 and 3 vertices over the lattice (i+.37, j+.41), i,j in {-1,1,3,5,7} (thorough: -1..7), plus two-member multi-line strings; x-monotone zigzag lines of 63..200 vertices; lines 4e10 long through the small shapes and multi-line strings with a member 7e9 long far away (absolute tolerance 1e-3 there); every simple polyline of 4 and 5 vertices over the coarse lattice {-1,3,7}^2 (detours outside the bounding box; 5 vertices against 6 shapes, thorough all); the same pairs again with both operands rotated by 30 degrees and scaled by 1.7 (irrational coordinates, lengths scale by 1.7); a quarter of the pairs again scaled exactly by 2^-20 and 2^40 (every tolerance relative to the scale); pairs not in general position (exact test) or with a piece shorter than 1e-7 are skipped and counted. Oracle: reference inside length from exact crossing tests + even-odd classification of every piece; Length(result) equal (rel 1e-9); every result vertex within 1e-9 of the line and inside or on the polygon; empty iff the reference length is 0; the polygon argument is not modified; the same clip twice more with both operands cut from flat vertex buffers (same result, buffers not written, first result intact); clip sequences on one shared polygon value, also after the value has been moved in place (history). Non-trivial = lines partly inside."
+	rep.Rule = "E1: 16 polygonal shapes (a corridor of aspect ratio 3e9, boxes, triangles, L, C, pentagon, holes in both windings and closed spelling, multi-polygons, island in hole) as Polygon / MultiPolygon / *Bounds x every simple open polyline of 2 and 3 vertices over the lattice (i+.37, j+.41), i,j in {-1,1,3,5,7} (thorough: -1..7), plus two-member multi-line strings; x-monotone zigzag lines of 63..200 vertices; lines 4e10 long through the small shapes and multi-line strings with a member 7e9 long far away (absolute tolerance 1e-3 there); every simple polyline of 4 and 5 vertices over the coarse lattice {-1,3,7}^2 (detours outside the bounding box; 5 vertices against 6 shapes, thorough all); the same pairs again with both operands rotated by 30 degrees and scaled by 1.7 (irrational coordinates, lengths scale by 1.7); a quarter of the pairs again scaled exactly by 2^-20 and 2^40 (every tolerance relative to the scale), another quarter scaled by 2^-10 and moved to (2^22, 3*2^21); pairs not in general position (exact test) or with a piece shorter than 1e-7 are skipped and counted. Oracle: reference inside length from exact crossing tests + even-odd classification of every piece; Length(result) equal (rel 1e-9); every result vertex within 1e-9 of the line and inside or on the polygon; empty iff the reference length is 0; the polygon argument is not modified; the same clip twice more with both operands cut from flat vertex buffers (same result, buffers not written, first result intact); clip sequences on one shared polygon value, also after the value has been moved in place (history). Non-trivial = lines partly inside."
 	var lattice []exact.Pt
 	step := int64(2)
 	if tier == "thorough" {
@@ -542,6 +587,16 @@ func main() {
 					cp.Pow = -34
 					if sym, det := runCase(cp); sym != "" {
 						rep.Violation("external:polyclip-go|coordinates-below-1e-8|wrong-result", map[string]interface{}{"case": cp, "symptom": sym, "observed": det})
+					}
+				}
+				// small and far away: scaled by 2^-10 and moved to (2^22, 3*2^21), nine
+				// orders of magnitude below the coordinates (every vertex is rounded to
+				// 1e-9 there: tolerance 1e-7, pieces below 1e-5 not classified)
+				if i%4 == 2 {
+					cp := c
+					cp.Pow, cp.Far, cp.Slack = -10, true, 1e-7
+					if sym, det := runCase(cp); sym != "" {
+						rep.Violation(fmt.Sprintf("LineString.Clip|%s|%s|small-and-far|%s", ct, s.Name, sym), map[string]interface{}{"case": cp, "observed": det})
 					}
 				}
 				// exact scalings by 2^-20 and 2^40 (lengths of 1e-6 and 1e12)
@@ -701,7 +756,7 @@ func main() {
 				if !generalPosition(r, lines[i]) {
 					continue
 				}
-				want, ok := insideLength(r, fr, lines[i])
+				want, ok := insideLength(r, fr, lines[i], 0)
 				if !ok {
 					continue
 				}
@@ -750,7 +805,7 @@ func main() {
 				if !generalPosition(r2, lines[i]) {
 					continue
 				}
-				want, ok := insideLength(r2, fr2, lines[i])
+				want, ok := insideLength(r2, fr2, lines[i], 0)
 				if !ok {
 					continue
 				}
